@@ -332,6 +332,32 @@ func errorHandled(f *ssa.Function, e ssa.Value) (bool, string) {
 			}
 		}
 	}
+	// a nil test that is combined with further conditions (short-circuit phi) lets the error vanish when they fail
+	if rs := e.Referrers(); rs != nil {
+		for _, ref := range *rs {
+			bo, ok := ref.(*ssa.BinOp)
+			if !ok || (bo.Op != token.NEQ && bo.Op != token.EQL) || bo.Referrers() == nil {
+				continue
+			}
+			for _, r2 := range *bo.Referrers() {
+				if _, isPhi := r2.(*ssa.Phi); isPhi {
+					return false, "returned only under a further condition combined with the nil test: when that condition fails the error is dropped and the caller sees success"
+				}
+				if ifi, isIf := r2.(*ssa.If); isIf {
+					// the non-nil branch must leave the function or report
+					nonNil := ifi.Block().Succs[0]
+					if bo.Op == token.EQL {
+						nonNil = ifi.Block().Succs[1]
+					}
+					if blk := nonNil; blk != nil {
+						if _, isIf2 := blk.Instrs[len(blk.Instrs)-1].(*ssa.If); isIf2 {
+							return false, "after the nil test the error is handled only under a further condition"
+						}
+					}
+				}
+			}
+		}
+	}
 	switch {
 	case returned && (tested || true):
 		if tested {
@@ -339,6 +365,32 @@ func errorHandled(f *ssa.Function, e ssa.Value) (bool, string) {
 		}
 		return true, "returned-directly"
 	case tested:
+		// converted: the non-nil branch reports another error into an accumulator
+		if rs := e.Referrers(); rs != nil {
+			for _, ref := range *rs {
+				bo, ok := ref.(*ssa.BinOp)
+				if !ok || bo.Referrers() == nil {
+					continue
+				}
+				for _, r2 := range *bo.Referrers() {
+					ifi, ok := r2.(*ssa.If)
+					if !ok {
+						continue
+					}
+					nonNil := ifi.Block().Succs[0]
+					if bo.Op == token.EQL {
+						nonNil = ifi.Block().Succs[1]
+					}
+					for _, in := range nonNil.Instrs {
+						if call, ok := in.(*ssa.Call); ok {
+							if c := call.Common().StaticCallee(); c != nil && c.Name() == "Append" {
+								return true, "tested-and-converted"
+							}
+						}
+					}
+				}
+			}
+		}
 		return false, "tested against nil but never returned or passed on"
 	}
 	return false, "not used"
@@ -720,4 +772,55 @@ func ErrorConstructors(p *load.Prog, r *oblig.Report, rule string, funcs []*ssa.
 	if n == 0 {
 		r.Unknown(rule, "error-origin:none", "-", "no error origin found: anchors no longer resolve")
 	}
+}
+
+// NoEmptySuccess (C02.7): a printer function with results (string, error) never reports success with
+// the empty text constant, except under an emptiness test of its input (len(x) == 0): a dispatch
+// that falls through must fail with an error, not print nothing.
+func NoEmptySuccess(p *load.Prog, r *oblig.Report, rule string, funcs []*ssa.Function) {
+	for _, fn := range funcs {
+		res := fn.Signature.Results()
+		if res.Len() != 2 || returnsError(fn) != 1 {
+			continue
+		}
+		if b, ok := res.At(0).Type().Underlying().(*types.Basic); !ok || b.Kind() != types.String {
+			continue
+		}
+		construct := "text-on-success:" + load.FuncName(fn)
+		bad := ""
+		for _, ret := range SuccessReturns(fn) {
+			c, ok := ret.Results[0].(*ssa.Const)
+			if !ok || c.Value == nil || c.Value.ExactString() != `""` {
+				continue
+			}
+			empty := false
+			for _, ce := range DominatingConds(ret.Block()) {
+				if bo, ok := ce.Cond.(*ssa.BinOp); ok && ce.Branch && bo.Op == token.EQL && isLenCall(bo.X) && isZeroConst(bo.Y) {
+					empty = true
+				}
+			}
+			if !empty {
+				bad = p.Pos(ret.Pos())
+			}
+		}
+		if bad != "" {
+			r.Bad(rule, construct, bad, "the printer reports success with empty text although its input was not tested to be empty: the construct is silently dropped from the DSL instead of being rejected")
+		} else {
+			r.OK(rule, construct, p.Pos(fn.Pos()), "text-or-error", "every success return carries computed text, or the input was tested to be empty")
+		}
+	}
+}
+
+func isLenCall(v ssa.Value) bool {
+	c, ok := v.(*ssa.Call)
+	if !ok {
+		return false
+	}
+	b, ok := c.Call.Value.(*ssa.Builtin)
+	return ok && b.Name() == "len"
+}
+
+func isZeroConst(v ssa.Value) bool {
+	c, ok := v.(*ssa.Const)
+	return ok && c.Value != nil && c.Value.ExactString() == "0"
 }
